@@ -114,6 +114,14 @@ func mixBLS(c *Ctx, g int) string {
 		func() string { k, err := crypto.AggregateBLSPublicKeys(pks); return hx(k.Encode()) + errClass(err) },
 		func() string { s, err := crypto.AggregateBLSSignatures(sigs); return hx(s) + errClass(err) },
 		func() string { k, err := crypto.RemoveBLSPublicKeys(aggPk, pks[:2]); return hx(k.Encode()) + errClass(err) },
+		// rejected calls in the mix (an error path that returns scratch memory twice, or leaves shared state half
+		// updated, shows in the calls that follow)
+		func() string { s, err := crypto.AggregateBLSSignatures(shortSigs); return hx(s) + errClass(err) },
+		func() string { s, err := crypto.AggregateBLSSignatures(badSigs[:3]); return hx(s) + errClass(err) },
+		func() string {
+			ok, err := crypto.VerifyBLSSignatureManyMessages(pksId, agg, msgs, hs)
+			return fmt.Sprint(ok, errClass(err))
+		},
 		func() string { return fmt.Sprint(pks[0].Equals(pks[1]), pks[2].Equals(pks[2]), pks[0].String() == pks[0].String()) },
 	}
 	want := make([]string, len(ops))
@@ -139,8 +147,8 @@ func mixBLS(c *Ctx, g int) string {
 		wg.Add(1)
 		go func(i int) {
 			defer wg.Done()
-			for rep := 0; rep < 3; rep++ {
-				k := (i + rep) % len(ops)
+			for rep := 0; rep < 6; rep++ {
+				k := (i + rep*5) % len(ops)
 				if got := ops[k](); got != want[k] {
 					results[i] = fmt.Sprintf("result-changed op %d", k)
 				}
